@@ -32,7 +32,7 @@ CLASSES = ["c", "foo", "k", "a-b", "x1"]
 ATTRS = ["t", "href", "lang", "data-x"]
 ATTR_OPS = ["", "=v", '="v w"', "~=v", "|=en", "^=v", "$=v", "*=v", "='q'"]
 PCLASS = ["hover", "first-child", "link", "last-child", "empty", "nth-child(2n+1)", "nth-of-type(odd)", "lang(en)", "nth-last-child(3)"]
-PELEM = ["::after", "::before", ":first-line", ":first-letter", "::first-line", ":after"]
+PELEM = ["::after", "::before", ":first-line", ":first-letter", "::first-line", ":after", "::slotted(x)", "::part(x1)", "::foo(1)", "::nth-fragment(2n+1)"]
 COMB = [" ", ">", "+", "~"]
 
 
